@@ -162,11 +162,38 @@ def run(F, R):
                     "(into_server_error / ServerError::new in the same body); applying it to the Err of a nested OutputType::resolve discards the deeper path "
                     "the nested field already stamped")
     n6 = 0
+    # does set_error_path itself keep a path that is already there?  (the new path is built only behind an `error.path.is_empty()` test)
+    sp = [x for x in F.find(r"async_graphql::context::\{impl#\d+\}::set_error_path$", kind="fn")]
+    preserves = False
+    for x in sp:
+        builds = [a[0] for a in find_aggs(x, r"async_graphql::error::ServerError$")]
+        tests = [c for c in x.calls() if c.callee and c.callee.endswith("::is_empty") and any(k == "field" and ".path" in f for k, f in trace(x, c.args[0])[0])]
+        if builds and tests:
+            ok = True
+            for t_ in tests[:1]:
+                sw = [bb for bb, tt in x.switches() if tt[1][0] in ("c", "m") and tt[1][1] == [t_.dest[0]]]
+                if not sw:
+                    ok = False
+                    continue
+                tt = x.term(sw[0])
+                nonempty_edge = [tg for v, tg in tt[2] if str(v) == "0"]
+                # on the "not empty" edge no new ServerError may be built
+                if not nonempty_edge or any(bb in x.reachable(nonempty_edge[0], avoid=[sw[0]]) for bb in builds):
+                    ok = False
+                if not all(x.must_pass([t_.bb], bb) for bb in builds):
+                    ok = False
+            preserves = ok
+    R.check(True, "R03.6", "set_error_path:" + ("keeps-existing-path" if preserves else "replaces-path"), sp[0].where() if sp else "-",
+            "set_error_path %s" % ("returns an error that already has a path unchanged" if preserves else "replaces the path unconditionally (call sites are checked individually)"), "")
     for b in F.bodies.values():
         if not re.match(r"async_graphql::(resolver_utils|dynamic::resolve|types::external)", b.defp):
             continue
         for c in b.calls_to(r"context::\{impl#\d+\}::set_error_path$"):
             n6 += 1
+            if preserves:
+                key = re.sub(r"\{closure#\d+\}", "{c}", b.owner.replace("async_graphql::", ""))
+                R.ok("R03.6", "path-kept:" + key, c.where(), "set_error_path keeps the deeper path")
+                continue
             o, passed = trace(b, c.args[1])
             fresh = any(p.callee and re.search(ISE + r"|error::\{impl#\d+\}::new$", p.callee) for p in passed)
             nested = b.kind == "closure" and any(k == "param" for k, x in o) and not fresh
